@@ -1360,6 +1360,13 @@ class Exec:
                 if key in self.calls:
                     use = self.calls[key]
                     break
+        if use is None and self.calls and objn is not None:
+            # catch-all binding for member calls on objects of an external library, keyed by a type prefix: '*lib:H5::'
+            rt = (objn.get('type', {}).get('desugaredQualType') or objn.get('type', {}).get('qualType', ''))
+            for key, h in self.calls.items():
+                if key.startswith('*lib:') and key[5:] in rt:
+                    use = h
+                    break
         if use is not None:
             r = use(self, n, st, objn, argn)
             return self.as_lv(r) if want_lv else self.as_rv(r, st)
